@@ -128,7 +128,7 @@ PLANS = {
                       dict(family="rand", rand=FLAT, invariants=['Inv_C04'], properties=['Prop_C04'], tier=1),
                       dict(family="alloc", invariants=["Inv_C04"], properties=["Prop_C04"]),
                       dict(family="place", invariants=["Inv_C04"], properties=["Prop_C04"]))),
-    "C05": dict(cases=both(step_cases(["deps", "abs", "place", "edge", "half", "mainwp"], FULL),
+    "C05": dict(cases=both(step_cases(["deps", "abs", "place", "edge", "half", "mainwp", "nest2"], FULL),
                            lambda tier, seed: _sim(families.sample(families.export_family("deps4", 1), 300 if tier == "quick" else 5000, seed))),
                 l1=l1(dict(family="deps", invariants=["Inv_C05"], properties=["Live_C05"]),
                       dict(family="abs", invariants=["Inv_C05"]))),
@@ -148,7 +148,7 @@ PLANS = {
                 l1=l1(dict(family="alloc", properties=["Prop_C11"]), dict(family="pairs", properties=["Prop_C11"]))),
     "C12": dict(cases=step_cases(["pert"], dict(facilities=False, components=False, kinds=["FS"])),
                 l1=l1(dict(family="pert", invariants=["Inv_C12"]))),
-    "C13": dict(cases=step_cases(["place", "conveyor", "mainwp", "autocomp"], FULL),
+    "C13": dict(cases=step_cases(["place", "conveyor", "mainwp", "autocomp", "nest2"], FULL),
                 l1=l1(dict(family="placeflat", invariants=["Inv_C13"], properties=["Prop_C13"]),
                       dict(family="conveyor", invariants=["Inv_C13"], properties=["Prop_C13"]))),
     "C14": dict(cases=step_cases(["place", "deps", "dag", "watch", "autocomp"], FULL),
@@ -287,7 +287,9 @@ def _pool(tier, seed, fams, nq, nt, rand_kw=None, rq=60, rt=600, prefix="H"):
 def c09_cases(tier, seed):
     rng = _random.Random(seed + 9)
     out = []
-    for cfg in _pool(tier, seed, ["deps", "abs", "due"], 120, 1500, dict(components=False, facilities=False), 80, 800):
+    # (with components too: their logs are part of "the same logs")
+    for cfg in (_pool(tier, seed, ["deps", "abs", "due"], 120, 1500, dict(components=False, facilities=False), 80, 800)
+                + _pool(tier, seed, ["placeflat", "autocomp", "watch"], 40, 400, None)):
         n = len(cfg["tasks"])
         perms = list(itertools.permutations(range(n)))
         if len(perms) > 6:
@@ -512,11 +514,31 @@ def c10_hist_cases(tier, seed):
     return out
 
 
+def c10_backward_cases(tier, seed):
+    """The absence round trip in backward mode: backward_simulate with project absence steps (also
+    one at and one just beyond the end of the run), remove_absence_time_list, compared with the
+    backward run without absence."""
+    out = []
+    pool = _pool(tier, seed, ["abs", "deps"], 60, 600, None)
+    rng = _random.Random(seed + 1011)
+    for cfg in pool:
+        if any(w["abs"] for w in cfg["workers"]) or any(t["auto"] for t in cfg["tasks"]) or cfg["opts"]["rule"] != "TSLACK":
+            continue
+        ops = [{"op": "backward", "opts": {"absL": []}, "light": True}]
+        for k in rng.sample(range(0, 9), 4):
+            L = [k] if rng.random() < 0.5 else [k, k + 1]
+            ops += [{"op": "rebuild"}, {"op": "backward", "opts": {"absL": L}, "light": True},
+                    _cmp({"op": "remove_absence"}, 1, "C10", "lg-success")]
+        out.append(_hist(cfg, "c10bw", ops))
+    return out
+
+
 def c08_hist_cases(tier, seed):
     rng = _random.Random(seed + 8)
     out = []
     pool = _pool(tier, seed, ["deps", "placeflat"], 40, 400, dict(), 60, 600)
-    alphabet = ["sim", "sim_light", "init", "pause_resume", "backward", "reverse", "sim_keep_logs", "sim_keep_state"]
+    alphabet = ["sim", "sim_light", "init", "pause_resume", "backward", "reverse", "sim_keep_logs", "sim_keep_state",
+                "cut_abs_reverse"]
     for cfg in pool:
         ops = []
         for _ in range(3 if tier == "quick" else 4):
@@ -534,6 +556,11 @@ def c08_hist_cases(tier, seed):
             elif a == "pause_resume":
                 ops += [{"op": "simulate", "opts": {"maxTime": rng.randint(0, 6)}, "light": True},
                         {"op": "simulate", "initState": False, "initLog": False}]
+            elif a == "cut_abs_reverse":
+                # a run cut off right after an absence step (the last recorded step is an absence
+                # step; one listed step lies just beyond the end), then turned round
+                k = rng.randint(1, 5)
+                ops += [{"op": "simulate", "light": True, "opts": {"maxTime": k, "absL": [k - 1, k]}}, {"op": "reverse"}]
             elif a == "backward":
                 ops.append({"op": "backward", "due": rng.random() < 0.5, "reverse": rng.random() < 0.5})
             else:
@@ -713,7 +740,7 @@ PLANS["C01"]["cases"] = both(PLANS["C01"]["cases"], c01_edit_cases)
 # edits of the model between two runs: no run may depend on what an earlier run derived
 PLANS["C09"]["cases"] = both(PLANS["C09"]["cases"], c01_edit_cases, c05_edit_cases, c09_retarget_cases)
 # an edited absence calendar is the calendar of the next run
-PLANS["C10"]["cases"] = both(PLANS["C10"]["cases"], c09_retarget_cases, c10_resume_cases, unit2_cases())
+PLANS["C10"]["cases"] = both(PLANS["C10"]["cases"], c09_retarget_cases, c10_resume_cases, unit2_cases(), c10_backward_cases)
 PLANS["C08"]["cases"] = both(PLANS["C08"]["cases"], c08_hist_cases, unit2_cases(),
                                tlc_hist_cases("histC08", ["deps", "placeflat"], 1, 6))
 PLANS["C18"]["cases"] = both(PLANS["C18"]["cases"], tlc_hist_cases("histC18", ["abs", "placeflat"], 1, 6))
